@@ -498,10 +498,50 @@ SET_COOKIE_TABLE = {'expires': 'expires', 'max_age': 'max-age', 'domain': 'domai
 UNSET_COOKIE_TABLE = {'samesite': 'samesite', 'domain': 'domain', 'path': 'path'}
 
 
-def _taint(f: Func, params: List[str]) -> Dict[str, Set[str]]:
-    """local name -> parameters it derives from (flow-insensitive closure)."""
+def _deciding_edges(cfg, nid: int):
+    """The T/F edges that dominate `nid`, without the reject guards: a test
+    whose other outcome only raises (`if <invalid>: raise ValueError`) decides
+    whether the call succeeds at all, not which attributes a cookie that IS
+    written carries - moving a validation to the top of the function must not
+    make every later store look governed by the validated parameter."""
+    out = []
+    for (t, y, l) in controlling_edges(cfg, nid):
+        others = [y2 for (y2, l2) in cfg.succ[t] if l2 in ('T', 'F') and l2 != l]
+        if others and all(raises_only(cfg, y2) for y2 in others):
+            continue
+        out.append((t, y, l))
+    return out
+
+
+def _taint(f: Func, params: List[str], p=None) -> Dict[str, Set[str]]:
+    """local name -> parameters it derives from (flow-insensitive closure).
+
+    A name derives from a parameter through the expression bound to it, and
+    (given the project `p`) through CONTROL: a (re)binding that only executes
+    under a test of a parameter is decided by that parameter -
+        if same_site == 'none': is_secure = True
+    makes `is_secure` (and whatever it guards later) a function of same_site,
+    although no value flows.  The tests are the T/F edges that dominate the
+    binding's CFG node (reject guards excepted, `_deciding_edges`), the same
+    notion `_cookie_wiring` applies to the morsel stores themselves.  A parameter that is rebound is treated like a local."""
     defs = Defs(f)
     t: Dict[str, Set[str]] = {x: {x} for x in params}
+    controls: Dict[int, List[ast.AST]] = {}
+    if p is not None:
+        cfg = cfg_of(f, p)
+        rd = reaching(p, f)
+        iters = {id(n.stmt): n.id for n in cfg.live_nodes() if n.kind == 'iter'}
+        withs = {id(n.stmt): n.id for n in cfg.live_nodes() if n.kind == 'with'}
+        handlers = {id(n.ast): n.id for n in cfg.live_nodes() if n.kind == 'handler'}
+        for ds in defs.defs.values():
+            for d in ds:
+                node = d[-1]
+                nid = rd.cfg_node(node)
+                if nid is None:
+                    nid = iters.get(id(node), withs.get(id(node), handlers.get(id(node))))
+                if nid is None:
+                    continue        # dead code: the binding is on no path
+                controls[id(node)] = [cfg.node(e[0]).ast for e in _deciding_edges(cfg, nid)]
     changed = True
     while changed:
         changed = False
@@ -517,7 +557,7 @@ def _taint(f: Func, params: List[str]) -> Dict[str, Set[str]]:
                     vals = [d[2]]
                 elif d[0] in ('iter', 'with'):
                     vals = [d[1]]
-                for v in vals:
+                for v in vals + controls.get(id(d[-1]), []):
                     for x in ast.walk(v):
                         if isinstance(x, ast.Name) and x.id in t and not t[x.id] <= cur:
                             cur |= t[x.id]
@@ -586,7 +626,7 @@ def _cookie_wiring(run, f: Func, table: Dict[str, str], name_param: str, fixed: 
             raise AnchorError('%s has no parameter %s' % (f.qual, prm))
     if name_param not in params:
         raise AnchorError('%s has no parameter %s' % (f.qual, name_param))
-    taint = _taint(f, params)
+    taint = _taint(f, params, p)
     attrs, values = _morsel_stores(p, f, cfg, name_param)
     if not values:
         raise AnchorError('%s: the cookie value is never stored' % f.qual)
@@ -595,7 +635,7 @@ def _cookie_wiring(run, f: Func, table: Dict[str, str], name_param: str, fixed: 
     seen_keys: Dict[str, int] = {}
     for (n, key, val, stmt) in attrs:
         infl = _expr_params(val, taint)
-        for e in controlling_edges(cfg, n.id):
+        for e in _deciding_edges(cfg, n.id):
             infl |= _expr_params(cfg.node(e[0]).ast, taint)
         infl -= ignore
         seen_keys[key] = seen_keys.get(key, 0) + 1
@@ -1480,7 +1520,8 @@ def check(run):
     run.rule('R1', r1_lower_keys, 'every key of a response header dict is lower-case', floor=25)
     run.rule('R2', r2_set_cookie_guard, 'Set-Cookie never enters/leaves through the plain header dict', floor=38)
     run.rule('R3', r3_emitters, 'three stores, two emitters', floor=20)
-    run.rule('R4', r4_cookie_attributes, 'cookie parameter -> attribute wiring and presence guards', floor=26)
+    run.rule('R4', r4_cookie_attributes, 'cookie parameter -> attribute wiring (value flow and control: a local rebound under a test of another parameter '
+             'carries that parameter; reject guards excepted) and presence guards', floor=26)
     from . import c09 as _c09
 
     run.rule('R13', _c09.localtime_sweep, 'cookie expiry and date headers are formatted as UTC, never through the process-local zone (shared with C09 R4)', floor=1)
